@@ -308,6 +308,30 @@ func foreignGroupingErrorSets() []modset {
 	return out
 }
 
+// skipUnknownSets: compiled in the mode that tolerates references to absent modules (names start with
+// "skip-unknown:"): absent imports, a submodule whose module is absent next to modules with submodules
+// of their own, an absent include.  Whatever the verdict, it is the same for every order.
+func skipUnknownSets() []modset {
+	hdr := func(m string) string { return fmt.Sprintf("module %s { namespace \"urn:%s\"; prefix %s;", m, m, m) }
+	sub := func(name, belongs, body string) string {
+		return fmt.Sprintf("submodule %s { belongs-to %s { prefix %s; } %s }", name, belongs, belongs, body)
+	}
+	return []modset{
+		{Name: "skip-unknown:absent-import", Expect: "any", Mods: map[string]string{"a": hdr("a") + " import zz { prefix zz; } leaf l { type zz:t; } container c { uses zz:g; } }"}},
+		{Name: "skip-unknown:orphan-submodule", Expect: "any", Mods: map[string]string{
+			"a":  hdr("a") + " include a1; include a2; container ca { uses g1; uses g2; } }",
+			"a1": sub("a1", "a", "grouping g1 { leaf x1 { type string; } }"), "a2": sub("a2", "a", "grouping g2 { leaf x2 { type string; } }"),
+			"o1": sub("o1", "nosuch", "container co { leaf y { type string; } }")}},
+		{Name: "skip-unknown:two-orphans-two-families", Expect: "any", Mods: map[string]string{
+			"a": hdr("a") + " include a1; container ca { uses g1; } }", "a1": sub("a1", "a", "grouping g1 { leaf x1 { type string; } }"),
+			"b": hdr("b") + " include b1; container cb { uses h1; } }", "b1": sub("b1", "b", "grouping h1 { leaf y1 { type string; } }"),
+			"m1": sub("m1", "gone", "container c1;"), "z9": sub("z9", "away", "container c9;")}},
+		{Name: "skip-unknown:absent-include", Expect: "any", Mods: map[string]string{"a": hdr("a") + " include nosuch; container ca { leaf l { type string; } } }"}},
+		{Name: "skip-unknown:absent-import-in-submodule", Expect: "any", Mods: map[string]string{
+			"a": hdr("a") + " include a1; container ca { uses g1; } }", "a1": sub("a1", "a", "import zz { prefix zz; } grouping g1 { leaf x1 { type zz:t; } }")}},
+	}
+}
+
 // caseSets: names that differ only in the case of their letters are different names (modules,
 // features, typedefs, groupings, identities), with the caller enabling one of two such features.
 func caseSets() []modset {
@@ -495,6 +519,7 @@ func allSets(quick bool) []modset {
 	out = append(out, includeSets()...)
 	out = append(out, caseSets()...)
 	out = append(out, foreignGroupingErrorSets()...)
+	out = append(out, skipUnknownSets()...)
 	out = append(out, structuralSets()...)
 	if !quick {
 		rels := []string{"typedef", "grouping", "identity", "feature"}
@@ -531,7 +556,7 @@ func outcome(r gen.Result) (verdict, dump string) {
 }
 
 func checkTotal(ms modset) (vs []engine.Violation, base gen.Result, verdict, dump string) {
-	base = gen.Compile(ms.Mods, gen.Options{MapOrder: []int{}, Features: setFeatures[ms.Name]})
+	base = gen.Compile(ms.Mods, gen.Options{MapOrder: []int{}, Features: setFeatures[ms.Name], SkipUnknown: strings.HasPrefix(ms.Name, "skip-unknown:")})
 	verdict, dump = outcome(base)
 	mk := func(key, detail string) {
 		vs = append(vs, engine.Violation{Key: key, Witness: ms.Name, Detail: detail, Harness: "set", Replay: engine.JSON(rec{ms, nil})})
@@ -571,7 +596,7 @@ func checkTotal(ms modset) (vs []engine.Violation, base gen.Result, verdict, dum
 var reFeature = regexp.MustCompile(`feature ([a-z0-9]+)`)
 
 func checkOrder(ms modset, choices []int, verdict, dump string) []engine.Violation {
-	r := gen.Compile(ms.Mods, gen.Options{MapOrder: choices, Features: setFeatures[ms.Name]})
+	r := gen.Compile(ms.Mods, gen.Options{MapOrder: choices, Features: setFeatures[ms.Name], SkipUnknown: strings.HasPrefix(ms.Name, "skip-unknown:")})
 	mk := func(key, detail string) []engine.Violation {
 		return []engine.Violation{{Key: key, Witness: fmt.Sprintf("%s map-order=%v", ms.Name, choices), Detail: detail, Harness: "order", Replay: engine.JSON(rec{ms, choices})}}
 	}
@@ -629,7 +654,7 @@ func run(c *engine.Ctx) {
 			}
 		}
 		st := engine.ExploreDeviations(b, 200000, func(ch []int) []int {
-			r := gen.Compile(ms.Mods, gen.Options{MapOrder: ch, Features: setFeatures[ms.Name]})
+			r := gen.Compile(ms.Mods, gen.Options{MapOrder: ch, Features: setFeatures[ms.Name], SkipUnknown: strings.HasPrefix(ms.Name, "skip-unknown:")})
 			return r.Choices
 		}, func(ch []int) {
 			if len(ch) == 0 {
